@@ -109,9 +109,17 @@ func VerifHarness_C21_Redeem() {
 		lockKey, proofKey = 5, 5 // a different password, known to the redeemer: fine
 	}
 	rawCheck := verifIssueCheck(chk, issuerID, lockKey)
-	used := verifConfig("used") == 1
+	used := verifConfig("used") >= 1
 	if used {
 		u.st.Checks.UseCheck(chk)
+	}
+	if verifConfig("used") == 2 {
+		// the check was redeemed in an earlier, committed block; in the current
+		// block another check has been redeemed before this transaction
+		if _, err := u.st.Commit(); err != nil {
+			panic(err)
+		}
+		u.st.Checks.UseCheckHash(types.Hash{0xEE, 1})
 	}
 	var proof [65]byte
 	copy(proof[:], verifSignHash(proofKey, verifAddrHash(proofFor)))
